@@ -229,13 +229,24 @@ func buildRepEvent(lvl byte, lname string, s string) *repEvent {
 		ev.Obs["E"] = lvlObs{asciiSafe(enc), tenthOf(o.e.Score()), sevName(o.e.Severity())}
 		upto = 22
 	}
+	// the language is given by one option or, for a share of the reports, by several stacked ones of which the last
+	// decides (an earlier option of another language must leave no trace)
+	opts := []report.ReportOptionsFunc{opt}
+	switch h := len(s) + len(lname); h % 4 {
+	case 1:
+		opts = []report.ReportOptionsFunc{report.WithOptionsLanguage(langTags["ja"]), opt}
+	case 2:
+		opts = []report.ReportOptionsFunc{report.WithOptionsLanguage(langTags["fr"]), report.WithOptionsLanguage(langTags["ja"]), opt}
+	case 3:
+		opts = []report.ReportOptionsFunc{report.WithOptionsLanguage(langTags["en"]), opt, opt}
+	}
 	switch lvl {
 	case 'B':
-		rep = report.NewBase(o.b, opt)
+		rep = report.NewBase(o.b, opts...)
 	case 'T':
-		rep = report.NewTemporal(o.t, opt)
+		rep = report.NewTemporal(o.t, opts...)
 	default:
-		rep = report.NewEnvironmental(o.e, opt)
+		rep = report.NewEnvironmental(o.e, opts...)
 	}
 	for i := 0; i < upto; i++ {
 		var c int
